@@ -92,11 +92,11 @@ def selftest(seed, pairs, workers, props):
     bad = 0
     for prop in props:
         mod = runner.prop_module(prop)
-        classes = mod.classes("quick")
-        cfg = {"tier": "quick", "n_classes": len(classes), "fault_every": getattr(mod, "FAULT_EVERY", 5), "samples_per_job": 0, "seed": seed}
+        plan = runner.plan_runs(mod, "quick", mod.n_runs("quick"))
+        cfg = {"tier": "quick", "n_classes": len(plan[0]), "fault_every": getattr(mod, "FAULT_EVERY", 5), "samples_per_job": 0, "seed": seed}
         a = runner.Pools(workers)
         try:
-            res = runner.determinism_selftest(prop, "quick", seed, classes, cfg, pairs, a)
+            res = runner.determinism_selftest(prop, "quick", seed, plan, cfg, pairs, a)
         finally:
             a.close()
         print(f"selftest {prop}: pairs={res['pairs']} mismatches={len(res['mismatches'])}")
